@@ -21,7 +21,7 @@ def check(run):
     P = run.program
     run.explanation = (
         "Ownership analysis by abstract interpretation of the public constructors (Grid.__init__, from_dataset, "
-        "from_topology, from_face_vertices, from_file, open_grid) down to depth 4/6: every value carries the set of "
+        "from_topology, from_face_vertices, from_file, open_grid) down to depth 6/8: every value carries the set of "
         "objects it may alias (a caller's parameter at container or buffer level, Grid._ds, a memo slot, fresh); "
         "an in-place write (item/augmented assignment, .sort/.put, .data=, attrs[...]=) through a may-alias of a caller's "
         "object, an internal dataset passed to a second Grid or returned by an export, an attrs dict adopted without copy, "
@@ -37,7 +37,8 @@ def check(run):
     ]
     for k in ALIAS_ENTRIES:
         P.func(k)  # anchors must exist
-    R = dataflow(P, run.tier)
+    # the readers' in-place helpers sit five calls below from_dataset (reader -> mesh builder -> parser -> loader -> helper): depth 6 also in the quick tier
+    R = dataflow(P, run.tier, depth=6 if run.tier == "quick" else 8)
     ok, bad = emit(run, R, RULES)
     run.stats.update(R.I.stats)
     run.floor("F-ALIAS", ok + bad, 8)
